@@ -16,7 +16,8 @@ func init() {
 		ID: "C13",
 		Explanation: "Structural necessary conditions of the retry / idempotence / speculative-execution contract: R1 every speculative launch is dominated by IsIdempotent() and a non-zero attempt count, and launches are bounded by sp.Attempts(); R2 every retry (loop back-edge after an attempt) is dominated by a non-nil policy, policy.Attempt(q) and - as documented - IsIdempotent(); " +
 			"R3 the RetryType switch covers all declared decisions, Retry reaches the next attempt without asking for another host, RetryNextHost asks exactly once, Rethrow/Ignore return, unknown decisions return ErrUnknownRetryType; R4 context errors and ErrNotFound return without consulting the policy; R5 one result: buffered result channel of capacity 1, guarded send, deferred cancel, and every execution goroutine runs on the derived cancelable context it was given; R6 the error of every retried attempt is recorded before the next one (the caller gets the last attempt's error)." +
-			" R7 DowngradingConsistencyRetryPolicy.GetRetryType equals the documented decision table on every path (a timed-out write is never handed to the next host); R8 Query.attempt / Batch.attempt add exactly one attempt on every path.",
+			" R7 DowngradingConsistencyRetryPolicy.GetRetryType equals the documented decision table on every path (a timed-out write is never handed to the next host); R8 Query.attempt / Batch.attempt add exactly one attempt on every path." +
+			" R9 the bundled retry policies answer true only where Attempts() <= NumRetries is provable from the guard facts; R10 executeQuery asks the host selection policy once per query (no Pick in a loop or go statement), so all executions share one host sequence.",
 		NotDecided: "attempt counts per failure sequence for arbitrary policies; 'first to complete wins' under races; behaviour of user-supplied policies.",
 		Rules: []*Rule{
 			{ID: "C13.R1", Floor: 3, Doc: "speculation gated by idempotence and attempts != 0; launches bounded by sp.Attempts()", Run: c13r1},
